@@ -34,6 +34,7 @@ def handle (line : String) : String :=
   | "clean" :: args => Drive.clean args
   | "rdp" :: args => Drive.rdpOp args
   | "zones" :: args => Drive.zonesOp args
+  | "treezones" :: args => Drive.treezonesOp args
   | "graphsets" :: args => Drive.graphsets args
   | "slices" :: args => Drive.slicesOp args
   | "cost" :: args => Drive.cost args
